@@ -247,7 +247,10 @@ func rawSweep3Skip(c *Ctx) {
 	c.AddEvals(n)
 }
 
-func checkC03TTHeader(c *Ctx) { c.TraceCheck(famTTHC03, tthHostileCases(c)) }
+func checkC03TTHeader(c *Ctx) {
+	c.TraceCheck(famTTHC03, tthHostileCases(c))
+	c.TraceCheck(famFraming, framingCases(c)) // header lengths reported on a reader with history (no Release between frames)
+}
 
 func init() {
 	checks["C03"] = checkC03
